@@ -30,6 +30,16 @@ func NewRawHTTPResponder(writer io.Writer) *RawHTTPResponder {
 	}
 }
 
+// Tells the responder which request it answers. The answer to a HEAD request carries no body, whichever
+// way it is written (relayed, from the store, or an error document made by the proxy): without this a
+// proxy-made error page was sent in full after a HEAD and was read as the start of the next response.
+func (c *RawHTTPResponder) ForRequest(req *http.Request) *RawHTTPResponder {
+	if req != nil && req.Method == http.MethodHead {
+		c.response.Request = &http.Request{Method: http.MethodHead}
+	}
+	return c
+}
+
 func (c *RawHTTPResponder) parseAndSetContentLength() error {
 	header := c.response.Header
 
